@@ -268,7 +268,7 @@ class ConcCtx(ContextCpu):
         return b
 
     def __getstate__(self):  # the harness back-pointer is not part of the context's state
-        st = ContextCpu.__getstate__(self)
+        st = dict(ContextCpu.__getstate__(self))  # a copy: whatever the library returns is not touched here
         st.pop("_env", None)
         return st
 
